@@ -1170,6 +1170,7 @@ class Interp:
             r = self.fresh_num(st, lo, hi, "cast")
             if lo == 0 and st.sys.entails_ge(e):
                 st.sys.add_le(r.e, e)       # truncation of a non-negative value never increases it
+            self.contents.setdefault("casts", {})[next(iter(r.e.t))] = e       # what was truncated (for rules that read layouts)
             return r
         if kind.startswith("PointerCoercion(Unsize"):
             # &[T; N] -> &[T], &T -> &dyn Trait, Box<[T;N]> -> Box<[T]>
@@ -1284,6 +1285,28 @@ class Interp:
                 off = self.join_values(Num(a.view[1]), Num(b.view[1]), sa, sb, phis, name + ".off")
                 view = (a.view[0], off.e)
             src = a.src if a.src == b.src else None
+            if src is None and a.src is not None and b.src is not None and (a.src[0] == "patch" or b.src[0] == "patch"):
+                # two versions of one buffer that share a history of writes: keep the shared history, everything from the
+                # first diverging write on is unknown (writes are append-only where this matters: C03 contiguous-write)
+                def chain(w):
+                    ps = []
+                    while w is not None and w[0] == "patch":
+                        ps.append(w[2:])
+                        w = w[1]
+                    return w, list(reversed(ps))
+                ba, pa = chain(a.src)
+                bb_, pb = chain(b.src)
+                if ba == bb_ and ba is not None:
+                    k = 0
+                    while k < len(pa) and k < len(pb) and pa[k] == pb[k]:
+                        k += 1
+                    lo_a = pa[k][0] if k < len(pa) else a.len
+                    lo_b = pb[k][0] if k < len(pb) else b.len
+                    lo = self.join_values(Num(lo_a), Num(lo_b), sa, sb, phis, name + ".plo")
+                    w = ba
+                    for q in pa[:k]:
+                        w = ("patch", w) + tuple(q)
+                    src = ("patch", w, lo.e, ln.e, ("be", 0, None))
             if src is None and src_atom(a.src) and src_atom(b.src) and a.src[0] == b.src[0]:
                 # windows of the same content at different offsets: the offset gets a phi variable (as for views)
                 so = self.join_values(Num(a.src[1]), Num(b.src[1]), sa, sb, phis, name + ".soff")
